@@ -919,8 +919,7 @@ func (x *Exec) sliceOp(fr *Frame, st *State, in *ssa.Slice) Val {
 		}
 		x.oblige(st, "SAFE", "slice-bounds("+x.posText(in.Pos())+")", g, "slice bounds out of range")
 		st.assume(g)
-		arr := x.shiftArray(st, sliceArr(xs.T), lo)
-		r := x.te.SliceMake(in.Type(), arr, Sub(hi, lo), Sub(cp, lo), sliceNil(xs.T))
+		r := x.subSlice(st, in.Type(), u, xs.T, lo, hi, cp)
 		return Val{T: x.nameTerm(st, "sl", r), Typ: in.Type(), Src: nil}
 	case *types.Pointer: // *array
 		at := u.Elem().Underlying().(*types.Array)
@@ -1015,4 +1014,17 @@ func (x *Exec) selectInstr(fr *Frame, st *State, in *ssa.Select) Val {
 		}
 	}
 	return Val{Typ: in.Type(), Tup: vs}
+}
+
+// subSlice builds the value of s[lo:hi] (capacity cp) of a slice.
+func (x *Exec) subSlice(st *State, T types.Type, u *types.Slice, s Term, lo, hi, cp Term) Term {
+	arr := x.shiftArray(st, sliceArr(s), lo)
+	r := x.te.SliceMake(T, arr, Sub(hi, lo), Sub(cp, lo), sliceNil(s))
+	if isByteType(u.Elem()) && x.te.StrSort == "String" && !x.te.ByteBV {
+		// the bytes of a sub-slice, seen as a string, are a substring
+		whole := x.bytesToString(st, s)
+		part := x.bytesToString(st, r)
+		st.assume(Implies(And(Le(IntLit(0), lo), Le(lo, hi), Le(hi, sliceLen(s))), Eq(part, Term{fmt.Sprintf("(str.substr %s %s (- %s %s))", whole.S, lo.S, hi.S, lo.S), "String"})))
+	}
+	return r
 }
